@@ -97,6 +97,8 @@ def opclass(act, args, n=None):
         return "DeepCopy/" + ("sliced" if args[0] else "unsliced")
     if act in ("ToRna", "ToDna"):
         return "ToMol"
+    if act == "CallerReuses":
+        return f"CallerReuses/{args[0]}"
     return act
 
 
